@@ -29,7 +29,7 @@ SPECS = {
     'D4': {'kind': 'dim1', 'validators': ['p_boom', 'p_r0_10']},
 }
 PAIRS = [('D4', 'D1'), ('D4', 'D3'), ('S1', 'D1'), ('S2', 'D2'), ('S4', 'D3'), ('S5', 'D4'), ('S6', 'S0'), ('S3', 'S1'), ('D1', 'D2')]
-SCALAR_VALUES = [5, 9.5, 11, 1, None, NAN, 'x']
+SCALAR_VALUES = [5, 9.5, 11, 1, None, NAN, 'x', 10]     # (10 = 2 x 5: an override whose raw value equals the recorded one)
 DIM_VALUES = [3, 11]
 
 
@@ -127,7 +127,18 @@ def run_impl(pair, hist, diag_present, catch_last):
   body.__name__ = 'mphase'
   ph = h.measures(ma, mb)(h.PhaseOptions(name='mphase')(body))
   nodes = [ph]
-  if diag_present:
+  if diag_present == 'internal':
+    # the result is issued by an *internal* diagnosis (not listed in the test record, but it exists)
+    dl, R = L['dl'], L['R']
+
+    def pre_body(test):
+      pass
+
+    pre_body.__name__ = 'pre'
+    pre = h.diagnose(dl.PhaseDiagnoser(R, name='pre_internal')(lambda rec: dl.Diagnosis(R.A, 'internal', is_internal=True)))(
+        h.PhaseOptions(name='pre')(pre_body))
+    nodes = [pre, ph]
+  elif diag_present:
     pre = progs.make_phase('pre', {'ret': ['ok'], 'diag': ['A']}, progs.RunCtx())
     nodes = [pre, ph]
   res, recs, test, terr = htf.run_test(nodes)
@@ -259,7 +270,7 @@ def _work(item):
   for i, hist in enumerate(histories(pair, depth)):
     if i % step != start:
       continue
-    for diag_present in ((False, True) if 'S6' in pair else (False,)):
+    for diag_present in ((False, True, 'internal') if 'S6' in pair else (False,)):
       variants = [True]
       if hist[-1][0] in ('set', 'setc'):
         variants.append(False)
@@ -270,7 +281,7 @@ def _work(item):
         if sample is None and len(hist) == 2:
           sample = {'history': hsig(pair, hist), 'result': got['meas']}
         for kind, what in bad:
-          viols.append(('%s:%s%s' % (kind, hsig(pair, hist), ' +A' if diag_present else ''),
+          viols.append(('%s:%s%s' % (kind, hsig(pair, hist), (' +A(internal)' if diag_present == 'internal' else ' +A') if diag_present else ''),
                         '%s%s%s: %s' % (hsig(pair, hist), ' (diag A present)' if diag_present else '',
                                         '' if catch_last else ' (last op not caught)', what),
                         {'pair': list(pair), 'hist': hist, 'diag_present': diag_present, 'catch_last': catch_last}))
